@@ -43,11 +43,17 @@ def mask_generator(data: bytes) -> bytes:
     return _GEN.sub(b"<meta:generator>X</meta:generator>", data)
 
 
+def is_xml_part(name: str) -> bool:
+    """the XML parts odfdo parses: the five standard ones and the same names
+    inside embedded sub-documents ('Object 1/content.xml')"""
+    return name in STD_XML or name.rsplit("/", 1)[-1] in ("content.xml", "styles.xml", "meta.xml", "settings.xml")
+
+
 def canon(name: str, data: bytes):
     """comparison form of a part: infoset for the standard XML parts (the
     generator stamp removed from meta.xml: Document.save rewrites it), raw
     bytes for everything else"""
-    if name in STD_XML:
+    if is_xml_part(name):
         root = etree.fromstring(data)
         if name == "meta.xml":
             for g in list(root.iter(xmlref.q("meta:generator"))):
